@@ -665,7 +665,10 @@ def run(tier="quick", seed=0, part=0, nparts=1):
              "%ordered, %rewrite, permanent, ignore_changes}; F2 two leaf rules x 36 logic pairs; F3 `a 1` before `a *`; F4/F5 a "
              "block `blk *` (6 logics) with one / two child rules; F6 `%global` rules (`~ %global` catch-all with default / "
              "%rewrite / %ordered / undo_redo, inside a block or at the top, `g * %global`); F7 three and four top rules; F8 three "
-             "levels) compiled by the real compile_patching_text, with an empty / reversed / same-order ordering text through "
+             "levels; F10 a block row matched by two block rules (`blk */1\\d*/` or `interface */Vlanif\\d+/` written before the "
+             "generic `blk *` / `interface *`) whose children key one child row differently (`ip address ~` vs `ip address *`); "
+             "F11 per vendor, rules whose first word merely begins with the negation word (undoable / undo-x, notification / "
+             "node-id, deleted / delete-x, removed / remove-x)) compiled by the real compile_patching_text, with an empty / reversed / same-order ordering text through "
              "compile_ordering_text, for huawei, cisco, arista, juniper (flat set/delete commands split back by the simulator), "
              "routeros (menu commands); config trees = every choice of at most one row per (rule, key), <= 3 rows per level, "
              "depth <= 2 (F8: 3), every order of the rows of %ordered / %rewrite rules; ALL pairs (old, new) when the universe "
